@@ -5,7 +5,7 @@ Open Scope Z_scope.
 
 Definition tr_set_tie (t : track) (mode value bend_range : Z) (events tie_notes : list event) : track :=
   mkTrack (tr_timepos t) (tr_channel t) (tr_length t) (tr_octave t) (tr_velocity t) (tr_qlen t) (tr_timing t) (tr_track_key t)
-          mode value bend_range events tie_notes.
+          mode value bend_range events tie_notes (tr_rsv t).
 
 Definition set_v2 (e : event) (v : Z) : event := mkEvent (e_type e) (e_time e) (e_ch e) (e_v1 e) v (e_v3 e) (e_data e).
 
